@@ -302,6 +302,7 @@ func runC05(r *Run) {
 	// ---------- R4 ----------
 	journalDiscipline(r, entries)
 	oogIsFailure(r)
+	effectIsFirstWrite(r)
 
 	// ---------- R5 ----------
 	r.Rule("R5", "PATH.flush-skip: StateDB.Commit runs in the middle of a transaction (before every precompile dispatch), so 'nothing to write' for a dirty slot is judged against what an earlier flush of this transaction wrote (transientStorage) whenever such a value exists, and against the originally loaded value only when it does not: the comparison with originStorage is reachable only over the not-found edge of the transientStorage lookup, and each SetState is followed by recording the value in transientStorage — otherwise a slot flushed inside a frame that later reverts keeps the reverted value in the store")
@@ -450,6 +451,59 @@ func revertibleWrite(in ssa.Instruction) (string, bool) {
 		}
 	}
 	return "", false
+}
+
+// effectIsFirstWrite (C05 R7): a spend handler that fails has written nothing.
+func effectIsFirstWrite(r *Run) {
+	P := r.P
+	r.Rule("R7", "PATH.effect-is-the-first-write: in every transaction handler of a wired stateful precompile that has a Cosmos-side effect other than grant bookkeeping, no call that writes an authz grant (SaveGrant/DeleteGrant, directly or through UpdateStakingAuthorization / UpdateGrantIfNeeded-like helpers) can precede the effect — the message server is what can fail (balance, validator, channel), precompile writes are not journalled, and a failure the calling contract swallows keeps whatever was written before it: an allowance consumed before the effect is lost without the spend")
+	n := 0
+	for _, m := range wiredPrecompiles(r) {
+		if !m.Stateful {
+			continue
+		}
+		for _, h := range m.Handlers {
+			if h.Fn == nil || !h.IsTx {
+				continue
+			}
+			kind, sites := classifyHandler(h)
+			if kind != hkSpend {
+				continue
+			}
+			var grants, effects []effectSite
+			for _, s := range sites {
+				if s.Call.Parent() != h.Fn {
+					continue
+				}
+				if isAuthzGrantWrite(s.Info) {
+					grants = append(grants, s)
+				} else {
+					effects = append(effects, s)
+				}
+			}
+			if len(grants) == 0 {
+				continue
+			}
+			n++
+			var w []ssa.Instruction
+			what := ""
+			for _, g := range grants {
+				for _, e := range effects {
+					if g.Call == e.Call {
+						continue
+					}
+					ec := e.Call
+					if p := (PathQuery{Fn: h.Fn, Start: g.Call, Target: func(in ssa.Instruction) bool { return in == ssa.Instruction(ec) }}).Search(); p != nil && w == nil {
+						w = p
+						what = callInfo(g.Call).Name + " before " + e.Info.String()
+					}
+				}
+			}
+			r.Check(w == nil, "R7", fnID(h.Fn)+"#effect-is-the-first-write", P.Pos(fnPos(h.Fn)), "no grant write precedes the fallible effect",
+				"a grant is written before the Cosmos-side effect ("+what+"): when the effect then fails and the calling contract swallows the failure, the consumed allowance stays consumed although nothing was spent", P.witness(w)...)
+		}
+	}
+	r.Floor("R7", "spend handlers that also write grants", n, 5)
 }
 
 // oogIsFailure (C05 R6).
@@ -929,6 +983,94 @@ func journalDiscipline(r *Run, entries []*types.Named) {
 			"Revert writes a constant into revertible state at "+constWrite+" instead of the value recorded when the entry was journaled: if the state already had the new value before the journaled operation, reverting the later frame also undoes the earlier, successful one")
 	}
 	r.Floor("R4", "journal entries with a Revert body", nE, 11)
+
+	// the log list is cut back to the length it had when the entry was journalled
+	isLogsLoad := func(v ssa.Value) bool {
+		u, ok := stripValue(v).(*ssa.UnOp)
+		if !ok || u.Op != token.MUL {
+			return false
+		}
+		sn, f, ok := fieldOfAddr(u.X)
+		return ok && sn == "StateDB" && f == "logs"
+	}
+	isLenLogs := func(v ssa.Value) bool {
+		c, ok := stripValue(v).(*ssa.Call)
+		if !ok {
+			return false
+		}
+		b, ok := c.Call.Value.(*ssa.Builtin)
+		return ok && b.Name() == "len" && len(c.Call.Args) == 1 && isLogsLoad(c.Call.Args[0])
+	}
+	nL := 0
+	for _, n := range names {
+		for _, pre := range []string{"(x/evm/statedb." + n + ").Revert", "(*x/evm/statedb." + n + ").Revert"} {
+			fn, ok := P.FnOK(pre)
+			if !ok || fn.Synthetic != "" {
+				continue
+			}
+			eachInstr(fn, func(in ssa.Instruction) {
+				st, ok := in.(*ssa.Store)
+				if !ok {
+					return
+				}
+				if l, _ := revertibleWrite(in); l != "StateDB.logs" {
+					return
+				}
+				nL++
+				oi := "(x/evm/statedb." + n + ").Revert#log-list-cut-to-recorded-length"
+				sl, ok := stripValue(st.Val).(*ssa.Slice)
+				if !ok || !isLogsLoad(sl.X) || sl.Low != nil || sl.High == nil {
+					r.Bad("R4", oi, P.Pos(instrPos(in)), "Revert of a log entry writes something other than a prefix of the current log list")
+					return
+				}
+				h := stripValue(sl.High)
+				okH, how := false, ""
+				if b, ok := h.(*ssa.BinOp); ok && b.Op == token.SUB && isLenLogs(b.X) {
+					if c, ok := b.Y.(*ssa.Const); ok && c.Value != nil && c.Value.ExactString() == "1" {
+						okH, how = true, "len(logs)-1"
+					}
+				}
+				if !okH {
+					// a recorded position: every place that builds the entry must record len(s.logs) as it is before the append
+					fname := ""
+					if sn, f, ok := fieldOfValue(h); ok && sn == n {
+						fname = f
+					} else if u, ok := h.(*ssa.UnOp); ok && u.Op == token.MUL {
+						if sn, f, ok := fieldOfAddr(u.X); ok && sn == n {
+							fname = f
+						}
+					}
+					if fname != "" {
+						okH, how = true, "recorded field "+fname+" = len(logs) at every journalling site"
+						nRec := 0
+						for _, g := range fns {
+							eachInstr(g, func(x ssa.Instruction) {
+								s2, ok := x.(*ssa.Store)
+								if !ok {
+									return
+								}
+								if sn, f, ok := fieldOfAddr(s2.Addr); ok && sn == n && f == fname {
+									nRec++
+									if !isLenLogs(s2.Val) {
+										okH = false
+										how = "the position recorded at " + P.Pos(instrPos(x)) + " is not len(s.logs)"
+									}
+								}
+							})
+						}
+						if nRec == 0 {
+							okH, how = false, "no site records the field "+fname
+						}
+					} else {
+						how = "the bound is neither len(logs)-1 nor a recorded field"
+					}
+				}
+				r.Check(okH, "R4", oi, P.Pos(instrPos(in)), "log list cut to its length before the journalled AddLog ("+how+")",
+					"reverting an AddLog cuts the transaction's log list to a bound that is not its length before that AddLog ("+how+"): a log emitted by a reverted frame stays in the receipt, bloom and the ERC20 conversion hooks — or logs of successful frames disappear")
+			})
+		}
+	}
+	r.Floor("R4", "Revert stores into the log list", nL, 1)
 }
 
 func valueOf(in ssa.Instruction) ssa.Value {
